@@ -121,7 +121,18 @@ def ms5(F, R):
     for key, want in TABLE["element_types"].items():
         f = key.split("::")[1]
         got = fields.get(f)
-        if got == want:
+        # a named constant in a const-generic position is its value: `Stack<usize, MAX_BRANCHES>` = `Stack<usize, 16>` (the *size* is
+        # LM's business; this rule is about the element type)
+        def norm(t):
+            import re as _re
+            if t is None:
+                return None
+            def val(m):
+                nm = m.group(0).split("::")[-1]
+                audited = {"MAX_BRANCH_SIZE": 16, "MAX_BRANCHES": 16}       # the values at the time of the audit
+                return str(F.consts[nm]) if nm in F.consts else str(audited[nm]) if nm in audited else m.group(0)
+            return _re.sub(r"\b[A-Za-z_][\w:]*\b", val, t)
+        if got == want or norm(got) == norm(want):
             R.ok("MS5", sodg["span"], "%s : %s (element type for which the containers' bitwise reads are sound)" % (key, want))
         else:
             R.bad("MS5", "MS5/%s/element-type" % key, sodg["span"],
